@@ -243,11 +243,17 @@ pub fn run(p: &Params, rep: &mut Report) {
                 rep.count("edited-store-not-observable");
                 continue;
             };
+            let ectx = json!({"context": ctx, "edit": what, "resource": rid, "original_text": orig, "edited_text": edited});
             if after.len() != before.len() {
-                rep.count("edited-store-has-other-annotations");
+                // only the text was edited: every annotation of the serialisation is either loaded (and judged) or the load fails;
+                // one that silently disappears is neither reported invalid nor valid
+                let kind = what.split('@').next().unwrap_or("");
+                rep.violation(
+                    format!("C18/edit/annotations-lost-or-gained-at-load/{}/{}", modename, kind),
+                    json!({"context": ectx, "annotations_before": before.iter().map(|b| b.0.clone()).collect::<Vec<_>>(), "annotations_after_load": after.iter().map(|a| a.0.clone()).collect::<Vec<_>>()}),
+                );
                 continue;
             }
-            let ectx = json!({"context": ctx, "edit": what, "resource": rid, "original_text": orig, "edited_text": edited});
             // the store-level verdict counts what the per-annotation expectations add up to
             {
                 let mut want = (0usize, 0usize, 0usize);
